@@ -2,10 +2,14 @@
 //! vmon — runtime monitors for risechain/revm. See /verif/DESIGN.md.
 //! Usage: vmon <ID> --tier quick|thorough --seed N [--jobs N] [--lane L] [--replay FILE] [--k v ...]
 
+mod evmrun;
 mod fw;
 mod interp;
 mod keccak;
+mod mon;
 mod props;
+mod world;
+mod wrun;
 
 use fw::*;
 use std::collections::BTreeMap;
